@@ -239,11 +239,12 @@ class EnumAny:
 
 class Arr:
     """array with per-element values"""
-    __slots__ = ('ty', 'e')
+    __slots__ = ('ty', 'e', 'hull')
 
     def __init__(self, ty, e):
         self.ty = ty
         self.e = tuple(e)
+        self.hull = None     # cached join of all elements (for reads at an abstract index)
 
     def __repr__(self):
         if len(self.e) > 6:
@@ -406,6 +407,8 @@ def join(a, b, topfn, widen=False):
         return a
     if same(a, b):
         return a
+    if ta is tb and hasattr(a, 'b') and hasattr(b, 'b') and len(a.b) == len(b.b):
+        return ta(a.ty, [join_int(x, y, widen) for x, y in zip(a.b, b.b)])      # SIMD vectors: byte-wise
     ty = getattr(a, 'ty', None) or getattr(b, 'ty', None)
     if ty is not None and topfn is not None:
         return topfn(ty)
